@@ -45,17 +45,6 @@ InvDecl(ty) ==
 Via(y, v) == IF v = "a" THEN Range(y.a) ELSE Range(y.b)
 (* exactly the real referrers: instances of the inverted entity (or a subtype) whose inverted attribute holds x *)
 Referrers(P, x, d) == {P[i].id : i \in {j \in 1..Len(P) : P[j].ty \in d.over /\ x \in Via(P[j], d.via)}}
-(* Envelope of the known re-entrancy defect (Dev_RegisterAfterRead, refined in LazyLoad.tla): an instance is    *)
-(* registered as loaded only after its read returns, so (a) a reference cycle recurses without end and (b) when *)
-(* the read reaches an instance that declares INVERSE attributes, that instance's inverse resolution loads its   *)
-(* candidate referrers - among them instances whose read is still in progress - a second time                    *)
-NestedInverseResolution(P, id) == \E y \in Deps(P, id) : InvDecl(Inst(P, y).ty) # {}
-
-(* the same defect seen from inverse resolution of x: a candidate referrer y of x is loaded, and y's own read   *)
-(* reaches another instance z with INVERSE attributes whose resolution re-enters the load of y                  *)
-CandidateReentry(P, x) == \E y \in IdsOf(P) : x \in RefSet(Inst(P, y)) /\
-                             \E z \in Deps(P, y) \ {x} : InvDecl(Inst(P, z).ty) # {}
-
 (* a population is conforming for C11 when a single-valued inverse has at most one referrer *)
 InvConforming(P) == \A i \in 1..Len(P) : \A d \in InvDecl(P[i].ty) : d.single => Cardinality(Referrers(P, P[i].id, d)) <= 1
 =============================================================================
